@@ -53,6 +53,7 @@ fn main() {
             shards,
             &outdir,
             opt_arg(&args, "--replay"),
+            opt_arg(&args, "--exact-ny").map(|s| s.split(',').map(|x| x.parse().unwrap()).collect()).unwrap_or_default(),
         ),
         "node" => node::run(
             arg(&args, "--seed", 1u64),
